@@ -218,6 +218,16 @@ def cases(tier, seed, shard, nshards):
             k += 1
             if k % nshards == shard:
                 yield {"k": "dup-pair", "d": d, "spec": [fam, pn, an, bn], "how": HOWS[k // nshards % 3]}
+    # a deep duplicate owns its tables: the original may give its own FROM table an automatic alias without the duplicate noticing
+    from ..siblings import families
+    for d in DIALECT_CLASSES:
+        prs, acts = families(d)["select"]
+        for pn, _ in prs:
+            for an in ("where-a", "select-b", "groupby-b", "orderby-b", "join-t2", "limit-3"):
+                for how in ("deepcopy", "pickle"):
+                    k += 1
+                    if k % nshards == shard:
+                        yield {"k": "dup-pair", "d": d, "spec": ["select", pn, an, "join-same-table-object"], "how": how}
     n = (1500 if tier == "quick" else 100000) // nshards
     rnd = random.Random("C15:%d:%d" % (seed, shard))
     for i in range(n):
